@@ -42,7 +42,7 @@ XorN(a, b, n) == IF n = 0 THEN 0 ELSE (((a % 2) + (b % 2)) % 2) + 2 * XorN(a \di
 Xor(a, b) == XorN(a, b, 8)
 
 \* ---- locations -----------------------------------------------------------------------------------------------
-\* env = [mach |-> 48 | 128, top |-> the RAM bank at 0xC000 (128K), base |-> sparse initial contents]
+\* env = [mach |-> 48 | 128, top |-> the RAM bank at 0xC000 (128K), base |-> sparse initial contents, stop |-> --tape-stop or 0]
 \* 48K: location = address.  128K: location = bank * Bank + offset for RAM, 8 * Bank + address for the ROM area.
 Loc(env, a) == IF env.mach = 48 THEN a
                ELSE IF a < RomTop THEN 8 * Bank + a
@@ -153,6 +153,7 @@ LoadWrites(env, m, data, k, i, step, off, inc) ==
        IN LoadWrites(env, (Loc(env, (i + off) % Top) :> data[k]) @@ m, data, k + 1, (IF j >= Top THEN j + inc ELSE j) % Top, step, off, inc)
 Load(env, blocks, st, op) ==
   IF op.blk < 1 \/ op.blk > Len(blocks) THEN Fail(st, "no-such-block")
+  ELSE IF env.stop > 0 /\ op.blk >= env.stop THEN Fail(st, "block-after-tape-stop")     \* "--tape-stop BLOCK: Stop the tape at this block number"
   ELSE LET blk   == blocks[op.blk]
            first == op.blk \notin DOMAIN st.pos
            p0    == IF first THEN (IF op.pre = 1 THEN 0 ELSE 1) ELSE st.pos[op.blk]
